@@ -33,10 +33,10 @@ CHECKS = {
    text="Seeded cyclic and acyclic programs plus a wrap plan (who is substituted, at which callback: early reference / before init / after init / before instantiation; consistently or with different substitutes; 1-2 substituting processors of all order classes) x K schedules (who asks first). If Run succeeded, every holder - including those that were handed an early reference - and the by-name lookup hold the one published version. Failure is always admissible.",
    note="that consistent substitution must succeed is not asserted", technique=STARTSIM + "; fault kind: component substitution by post-processors; oracle: pointer identity per component"),
  "C04": dict(cat="fault_enumeration", engine="startsim+regsim", ref="5/C04",
-   text="Three sources of histories checked call by call against a small reference state machine of the three-level cache: (1) regsim drives the real registry directly with generated creation trees and enumerates every failure position of every tree, then continues with lookups, direct get-or-creates and re-creates; (2) a tracer on every real start, fault-free and with every discovered callback site failing (transient and permanent), (3) GetComponentByName for every component on the same App after each failed start (black box). Complete per explored tree / start; trees and programs are sampled by seed. regsim factories may publish their own name themselves and may hand back what they built together with the error.",
+   text="Three sources of histories checked call by call against a small reference state machine of the three-level cache: (1) regsim drives the real registry directly with generated creation trees and enumerates every failure position of every tree, then continues with lookups, direct get-or-creates and re-creates; (2) a tracer on every real start, fault-free and with every discovered callback site failing (transient and permanent), (3) GetComponentByName for every component on the same App after each failed start (black box). Complete per explored tree / start; trees and programs are sampled by seed. regsim factories may publish their own name themselves and may hand back what they built together with the error. Since wave 18 regsim also asks for the creation of names that are in creation (refused, the factory never runs) and lets factories publish an interim object under their own name; startsim processors may look components up from PostProcessBeforeInstantiation.",
    note="the tracer is a pass-through decorator installed through hook H1", technique="deterministic simulation with fault injection: enumerated creation failures on generated creation trees (regsim) and on real starts (startsim); oracle: executable reference state machine of the singleton cache"),
  "C05": dict(cat="exploration", engine="startsim", ref="5/C05",
-   text="Seeded DAGs / diamonds / cycles with tails, lazy-eager mixes and 1-4 observing post-processors of all classes, under K schedules. Event-log checker: before* < AfterPropertiesSet < Init < after*, each at most once on any run and exactly once on successful ones; wiring and configuration snapshot at the first before-init callback equals the final population; when Init(c) runs every dependency that does not depend back on c has finished; lazy components have a lifecycle iff a created component holds or names them. A few discovered callback sites (early-reference callbacks first) are also made to fail in turn: once per creation attempt and in lifecycle order is judged on every run.",
+   text="Seeded DAGs / diamonds / cycles with tails, lazy-eager mixes and 1-4 observing post-processors of all classes, under K schedules. Event-log checker: before* < AfterPropertiesSet < Init < after*, each at most once on any run and exactly once on successful ones; wiring and configuration snapshot at the first before-init callback equals the final population; when Init(c) runs every dependency that does not depend back on c has finished; lazy components have a lifecycle iff a created component holds or names them. A few discovered callback sites (early-reference callbacks first) are also made to fail in turn: once per creation attempt and in lifecycle order is judged on every run. Since wave 18 substitutes may be decorators that embed the component (its Init / AfterPropertiesSet are the component's own), and instantiation-aware processors may look components up before instantiation.",
    note="dependencies-first is judged on the observed wiring graph; substituting programs are exempt", technique=STARTSIM + "; oracle: event-log lifecycle checker"),
  "C09": dict(cat="fault_enumeration", engine="startsim", ref="5/C09",
    text="Per generated program and explored schedule every callback site discovered by the fault-free run (Init, AfterPropertiesSet, every post-processor callback for every component including the container's own) is made to fail singly - exhaustive per (program, schedule) - plus sampled pairs; unsatisfiable required / optional points are judged by the start-outcome model. Oracle: Run returns an error, no panic, terminates, no runner invoked; optional-only shortfalls never fail and leave the field empty. A share of the substituting family is included (a failure inside a lookup whose caller copes with the error is not Run's to report).",
@@ -60,7 +60,7 @@ CHECKS = {
    text="Seeded components with configuration fields from a fixed menu (placeholders, defaults, prop shorthand, #{${a}+${b}}, #{${a}*${b}}, prefix-bound values, literals; optional validate constraints) next to user instantiation-aware processors of all order classes; the schedule permutes the arrival order of all processors at the unstable sorter. Oracle: a small evaluator of the menu; Run fails exactly when a bound value violates its constraint or a required value is missing. The menu also has comparison, conjunction, conditional, three-operand, remainder, quotient (float) and string-concatenation expressions (also with blanks at the end), two-default expressions, gt/lt/eq/ne/len constraints, structs whose constraints sit behind a pointer, holders that name their section per instance, and scalar fields the application preset.",
    note="narrow value domain by design: the biconditional over arbitrary values and expressions is input generation, outside this technique", technique="deterministic simulation (startsim, configuration slice); oracle: menu evaluator (placeholder -> expression -> bind -> validate)"),
  "C20": dict(cat="exploration", engine="racesim+linsim", ref="5/C20",
-   text="racesim: generated programs with 8-60 components, 1-3 custom scanners and closers run with the scheduler in parallel mode under the Go race detector; several scanner invocations / closers fail at the same time; zero reports demanded. linsim: the concurrent utilities compiled from a scratch copy with a yield point before every statement; seeded single-runner interleavings of 2-4 clients; porcupine linearizability check against a sequential map / set, with Range as one step and with Range interleavable; plus the plain 'two callers never both win' invariant. linsim also instruments the default definition registry (GetMetaOrRegister / GetMetaByName / RegisterMeta / GetMetas against the sequential map; locks in instrumented code are taken cooperatively, a state in which every live client waits for a lock is a violation of its own); racesim runs programs with an odd index under the library's own logger, and failing closers return an error object whose Error() reads a word the application writes once App.Close has returned.",
+   text="racesim: generated programs with 8-60 components, 1-3 custom scanners and closers run with the scheduler in parallel mode under the Go race detector; several scanner invocations / closers fail at the same time; zero reports demanded. linsim: the concurrent utilities compiled from a scratch copy with a yield point before every statement; seeded single-runner interleavings of 2-4 clients; porcupine linearizability check against a sequential map / set, with Range as one step and with Range interleavable; plus the plain 'two callers never both win' invariant. linsim also instruments the default definition registry (GetMetaOrRegister / GetMetaByName / RegisterMeta / GetMetas against the sequential map; locks in instrumented code are taken cooperatively, a state in which every live client waits for a lock is a violation of its own); racesim runs programs with an odd index under the library's own logger, and failing closers return an error object whose Error() reads a word the application writes once App.Close has returned. Enumerations (Range, ToArray, GetMetas) that overlap mutations are additionally judged key by key (a mapping the key had at some moment of the call) and must hand out only what somebody stored, every key once.",
    note="the race detector's happens-before analysis, porcupine and Go's sync.Map are trusted; each call into sync.Map is one atomic step", technique="deterministic simulation: parallel-wave release under the race detector (racesim) + cooperative scheduling at AST-inserted yield points with porcupine (linsim)"),
  "C10": dict(cat="exploration", engine="startsim", ref="5/C10",
    text="Metamorphic sweep: each generated program is started under K schedules (canonical, reversed, random: registration permutation x three enumeration orders x scan interleaving). Same success/failure for programs without tied points, same target on every non-tied point, agreement with the start-outcome model where it has a verdict. A share of the programs carries a custom scanner that refuses some definitions under every schedule (the start must be refused whatever the interleaving of the scanning phase), and the batches open with rings in which one member is substituted (with and without a holder outside the ring).",
